@@ -46,7 +46,7 @@ class Gen(object):
         """wrap a function on ints so that it raises on some items"""
         r = self.r
         cond = ['comp', ['mod', r.randint(2, 4)], ['eq', ev(r.randint(0, 1))]] if typ == INT else ['const', ev(r.random() < 0.5)]
-        return ['comp', ['raiseif', cond, r.choice([1, 2, 3, 4])], f]
+        return ['comp', ['raiseif', cond, r.choice([1, 2, 3, 4, 13])], f]      # 13: an exception whose instances are falsy
 
     # ---- single operators ------------------------------------------------------------------
     def op(self, t, depth, in_tee=False):
@@ -76,7 +76,7 @@ class Gen(object):
             if in_tee:     # a branch that legitimately emits None for some items (join cells must not read it as empty)
                 w(1, lambda: ([['map', ['noneif', self.int_pred()]]], ANY))
             w(1, lambda: ([['map', ['div', ev(r.choice([2, 4, 3]))]]], FLT))
-            w(2, lambda: ([['scan', ['raiseif', ['comp', ['mod', 3], ['eq', ev(1)]], r.choice([1, 2]), ['add']] if err else r.choice([['add'], ['max'], ['min'], ['sub']]),
+            w(2, lambda: ([['scan', ['raiseif', ['comp', ['mod', 3], ['eq', ev(1)]], r.choice([1, 2, 13]), ['add']] if err else r.choice([['add'], ['max'], ['min'], ['sub']]),
                             ev(r.randint(-1, 3)), int(r.random() < 0.3), None]], INT))
             w(1, lambda: ([['scan', ['append'], ev([]), 1, None, r.choice(['value', 'factory'])]], LST))
             w(1, lambda: ([['scan', ['add'], ev(0), int(r.random() < 0.5), r.choice([['mul', ev(10)], ['add', ev(100)]])]], INT))
@@ -280,7 +280,7 @@ def gen_trace(r, typ=INT, nkeys=None, reuse=True, sorted_=False, max_items=None,
     return trace
 
 
-def gen_trace_scale(r, shape=None):
+def gen_trace_scale(r, shape=None, min_n=0):
     """Traces at SCALE (thresholds of data-type widths, buffer sizes and growth policies): one or two keys with
     several hundred items; or hundreds of simultaneously live keys with a few items each; slot indices in the
     hundreds / low thousands; a long key whose slot is reused afterwards.  Items cycle through a small range so
@@ -290,7 +290,7 @@ def gen_trace_scale(r, shape=None):
     if shape in ('long', 'long2', 'long_reuse'):
         nk = 1 if shape != 'long2' else 2
         slots = r.sample([0, 1, 3, 130, 257, 300], nk)
-        n = r.choice([130, 260, 300, 520, 1030])
+        n = max(r.choice([130, 260, 300, 520, 1030]), min_n)      # min_n: the configuration's own threshold (e.g. two full windows)
         qs = []
         for s in slots:
             key = [s]
